@@ -21,7 +21,7 @@ def main():
     t0 = time.time()
     mod.run_shard(spec, rec)
     d = rec.dump()
-    print("wall", round(time.time() - t0, 1), "evals", d["evals"], "distinct", len(d["keys"]))
+    print("cpu", round(time.process_time(), 1), "wall", round(time.time() - t0, 1), "evals", d["evals"], "distinct", len(d["keys"]))
     for k, v in sorted(d["counters"].items()):
         print("  ", k, v)
     for k, v in d["observed"].items():
